@@ -372,6 +372,12 @@ var blockedPkgs = map[string]bool{"reflect": true, "internal/reflectlite": true,
 	"time": true, "net": true, "net/http": true, "encoding/json": true, "encoding/xml": true, "internal/abi": true,
 	"internal/poll": true, "os/exec": true, "internal/cpu": true, "sync": true, "context": true, "regexp": true, "regexp/syntax": true, "log": true, "fmt": true}
 
+// small pure functions of blocked packages that are safe to interpret
+var allowedFns = map[string]bool{"(*fmt.wrapError).Unwrap": true, "(*fmt.wrapError).Error": true,
+	"(*fmt.wrapErrors).Unwrap": true, "(*fmt.wrapErrors).Error": true,
+	"(context.backgroundCtx).String": true, "(context.emptyCtx).Value": true, "(context.emptyCtx).Done": true,
+	"(context.emptyCtx).Err": true, "(context.emptyCtx).Deadline": true}
+
 var zeroOKGlobals = map[string]bool{"os.Stderr": true, "os.Stdout": true, "os.Stdin": true}
 
 // ---- memory ---------------------------------------------------------------
@@ -944,10 +950,13 @@ func (in *Interp) callFunction(fn *ssa.Function, args []Value, fv []Value, calle
 	if in.initing && fn.Synthetic == "package initializer" && fn.Pkg != in.curInitPkg {
 		return nil
 	}
+	if fn.Blocks == nil && fn.Pkg != nil {
+		fn.Pkg.Build() // library packages are built lazily
+	}
 	if fn.Blocks == nil {
 		panic(inconclusive("function without body and without model: " + fn.String()))
 	}
-	if fn.Pkg != nil && blockedPkgs[fn.Pkg.Pkg.Path()] {
+	if fn.Pkg != nil && blockedPkgs[fn.Pkg.Pkg.Path()] && !allowedFns[fn.String()] {
 		panic(inconclusive("unmodelled function of an out-of-reach library package: " + fn.String()))
 	}
 	in.depth++
